@@ -538,6 +538,15 @@ func checkUnionEnumValidators(w *World, r *Result) {
 		}
 		return true
 	})
+	for _, vr := range virtualRanges(w, et) {
+		// `mapTo(e.Members, func(_ int, m EnumMember) string { return … })`: one element per member, unconditionally
+		if strings.HasSuffix(es(vr.X), ".Members") && vr.ret != nil {
+			all = true
+			r.cond(rendersConstVal(etinfo, vr.ret, vr.val), "AGR-C04e", et.Name, "tuple element "+es(vr.ret), w.Pos(vr.ret.Pos()),
+				"the element is the value of the member's constant",
+				"a tuple element is `"+es(vr.ret)+"`, not the value of the member's constant: positions equal values only for the exported members of an iota enum")
+		}
+	}
 	r.cond(all, "AGR-C04e", et.Name, "tuple lists every member", fnPos(w, et), "no filter: every value Go can emit is in the tuple", "enumTuple filters members: a value Go can emit is rejected")
 	// every element of the tuple is the value of its member's constant (never its position: IsIota only speaks of the
 	// exported members, an unexported outlier keeps its own value)
